@@ -98,6 +98,15 @@ def check_tu(ctx, tu):
                 islocal = root_var_id(p) is not None and root_var_id(p) in f.var_decls()
                 ctx.ob('C13.S1', f, 'emplace_back (which does not sort) is applied only to a local list', islocal,
                        detail='receiver %s at %s' % (pstr(p), f.nloc(n)), where=f.nloc(n), key_detail='emplace_back local')
+    for f in tu.fns_named('OrderedQueueListCompare::operator()'):
+        try:
+            env = {f.params[0]['id']: 'a', f.params[1]['id']: 'b'} if len(f.params) == 2 else {}
+            fm = F.formula(f, env, inline=False)
+            ok = fm == ('atom', 'a.event < b.event')
+        except F.Unsupported:
+            ok = False
+        ctx.ob('C13.S3', f, 'the default comparator orders queued events by `a.event < b.event` (a strict order on the event key)', ok,
+               detail='extracted %s' % (F.show(fm) if 'fm' in dir() and fm else '?'), key_detail='default comparator')
     for f in tu.fns_named('OrderedQueueList::doSort'):
         sorts = [n for n in f.calls() if (f.callee(n) or {}).get('name') in ('sort', 'stable_sort')]
         ok = len(sorts) == 1 and (f.callee_key(sorts[0]) or '') in ('std::list::sort', 'std::stable_sort')
